@@ -48,7 +48,7 @@ par = [
  chk("C15","sim-par","exploration","Reader error at set k, invalid input at record i, each init closure failing at call j, under sampled schedules; the error must arrive exactly once, nothing read after it may arrive, and the per-record functions must return the same error sequential reading reports.",SIM_PAR_BASE,DS+"schedules x fault points (reader error index, init failure index, invalid record index)","DESIGN.md 5 C15"),
  chk("C16","sim-par","exploration","Long inputs, slow consumers and sticky schedules; data-set creations, identity tags and reader run-ahead are bounded by queue length (+1).",SIM_PAR_BASE,DS+"schedules x consumer speeds x input lengths; creation count / identity / run-ahead monitors","DESIGN.md 5 C16"),
 ]
-have_par = os.path.exists(os.path.join(HERE, "sim-par", "src", "main.rs")) and "--with-par" in sys.argv
+have_par = os.path.exists(os.path.join(HERE, "sim-par", "src", "main.rs"))
 hook_commits = []
 try:
     out = subprocess.check_output(["git", "-C", "/repo", "log", "--format=%H %s"]).decode().splitlines()
